@@ -1,6 +1,7 @@
 // dispsim — CLI around dispsim_core.hpp
 //   dispsim run <P> <J> <R> <mode> <order: J ints> <npicks> <picks...>     one schedule; prints one JSON line
-//   dispsim explore <P> <J> <R> <mode> <max_states>                        all schedules (BFS over states); one JSON line
+//   dispsim explore <P> <J> <R> <mode> <max_states> [stride offset]       all schedules (BFS over states); one JSON line;
+//                                                                           job ids are offset + stride*j (default 0..J-1)
 //   dispsim batch                                                           reads "run ..." / "explore ..." lines on stdin
 #include "dispsim_core.hpp"
 #include <iostream>
@@ -31,7 +32,9 @@ static std::string do_line(std::istringstream& is) {
           << ",\"sent\":" << simnet::net().sent << ",\"trace\":" << jtrace(trace) << "}";
     } else if (cmd == "explore") {
         long maxs; is >> maxs;
-        c.order.resize(c.J); for (int j = 0; j < c.J; j++) c.order[j] = j;
+        int stride = 1, offset = 0; if (!(is >> stride >> offset)) { stride = 1; offset = 0; }
+        if (stride < 1 || offset < 0) return "{\"error\":\"bad ids\"}";
+        c.order.resize(c.J); for (int j = 0; j < c.J; j++) c.order[j] = offset + stride * j;
         dsim::ExploreResult r = dsim::explore(c, maxs);
         o << "{\"ok\":" << (r.violation.empty() ? "true" : "false") << ",\"violation\":\"" << jesc(r.violation) << "\",\"states\":" << r.states << ",\"transitions\":" << r.transitions
           << ",\"max_depth\":" << r.max_depth << ",\"complete\":" << (r.complete ? "true" : "false") << ",\"witness\":" << jtrace(r.witness) << "}";
